@@ -382,6 +382,21 @@ def falsify(ctx):
                 ctx.violation(f"e2e:{kind}:{json.dumps(texts, sort_keys=True)}:{sorted(opts)}:{pattern!r}",
                               f"{kind} {sorted(opts)} texts={texts!r} pattern={pattern!r}: {why}",
                               {"kind": kind, "opts": {k: (v if isinstance(v, bool) else str(v)) for k, v in opts.items()}, "texts": texts, "pattern": pattern, "why": why})
+    # extra schema keys forwarded as Field(...) keyword arguments: the key is input text too (reserved words, hostile values)
+    from harness.props import c01
+    for doc, kind, o in c01.extras_sweep():
+        if not ctx.thorough and kind not in ("pydantic.BaseModel", "pydantic_v2.BaseModel"):
+            continue
+        ctx.count("eval_e2e")
+        ctx.bucket("family", "extra-keys")
+        ctx.nontrivial("extras:" + json.dumps(doc, sort_keys=True)[:200] + kind + json.dumps({k: sorted(v) if isinstance(v, (list, set)) else v for k, v in o.items()}, sort_keys=True))
+        oo = {k: (set(v) if isinstance(v, list) else v) for k, v in o.items()}
+        g = e2e.generate(json.dumps(doc), kind=kind, **oo)
+        if g.ok and e2e.parses(g.text):
+            seen += 1
+            if seen <= 8:
+                ctx.violation(f"extras:{kind}:{sorted(o)}:{json.dumps(doc, sort_keys=True)[:160]}", f"{kind} {sorted(o)}: a forwarded schema key makes the output unparsable ({e2e.parses(g.text)})",
+                              {"extras": [doc, kind, {k: sorted(v) if isinstance(v, (list, set)) else v for k, v in o.items()}]})
     # discriminated unions: property name and tag values as text slots (class keywords of msgspec, Literal values, aliases)
     specials = ["'", '"', "\\", "\n", "pet's kind", "kind\\", "k', tag='x', frozen=True, rename='", 'say "hi"', "a\nb", "{{ 7*7 }}", "\0", '"""', "\\'", "x\ty", "\x85", "#"]
     dcases = [(sp, "k-1", "k-2") for sp in specials] + [("pet-kind", sp, sp + "2") for sp in specials]
@@ -414,6 +429,10 @@ def _opts(o):
 
 def replay_finding(ctx, f):
     r = f["replay"]
+    if "extras" in r:
+        doc, kind, o = r["extras"]
+        g = e2e.generate(json.dumps(doc), kind=kind, **{k: (set(v) if isinstance(v, list) else v) for k, v in o.items()})
+        return bool(g.ok and e2e.parses(g.text))
     if "disc" in r:
         return check_disc(r["kind"], r["opts"], *r["disc"]) is not None
     return check_case(r["kind"], _opts(r["opts"]), r["texts"], r.get("pattern")) is not None
